@@ -122,7 +122,7 @@ func fullValsOf(t *meta.Type, asList bool) []val.Value {
 			}
 			break
 		}
-		out = append(out, val.Int32(5), val.Int32(-1), val.String("x"), val.String(""), val.String("a b"), val.String("true"))
+		out = append(out, val.Int32(5), val.Int32(-1), val.String("x"), val.String(""), val.String("a b"), val.String("true"), val.String(" a "), val.String("<&>"))
 		// strings that are lexical values of an earlier member ("42" in union{int32,string}) are not
 		// values of the union: RFC 7950 9.12 gives them to the first member that matches
 	}
